@@ -149,6 +149,14 @@ def _T1_commit(F, R):
     r_txn.rule_T1(F, R, only=("commit_operations",))
 
 
+def _T1_sync_action(F, R):
+    r_txn.rule_T1(F, R, only=("sync",))
+
+
+def _ED(F, R):
+    r_cloud.rule_ED(F, R)
+
+
 def _K_core(F, R):
     r_cloud.rule_K(F, R, which=("K2", "K5", "K4"))
 
@@ -158,32 +166,33 @@ def _K_all(F, R):
 
 
 G_SYNC = [r_sync.rule_S1, r_sync.rule_S2, r_sync.rule_S3, r_sync.rule_S4, r_sync.rule_S5, r_sync.rule_S6, r_sync.rule_S7, r_sync.rule_S8,
-          r_sync.rule_S9, r_sync.rule_S10, r_sync.rule_S11, r_sync.rule_N1, r_sync.rule_N2, r_sync.rule_T1_sync]
+          r_sync.rule_S9, r_sync.rule_S10, r_sync.rule_S11, r_sync.rule_N1, r_sync.rule_N2, r_sync.rule_T1_sync, _T1_sync_action]
 G_TRANSFORM = [r_transform.rule_TP1, r_transform.rule_WIN, r_transform.rule_CANCEL, r_transform.rule_DELETE_WINS]
 G_WIRE = [r_wire.rule_W1, r_wire.rule_W2, r_wire.rule_W3, r_wire.rule_W4]
-G_APPLY = [r_taskdb.rule_A1, r_taskdb.rule_L1, r_taskdb.rule_L2, _T1_commit]
+G_APPLY = [r_taskdb.rule_A1, r_taskdb.rule_L1, r_taskdb.rule_L2, _T1_commit, r_taskdb.rule_ERR]
 G_SNAP = [r_storage.rule_N3, r_storage.rule_N3_overrides, r_storage.rule_N4, r_storage.rule_N5]
 G_SQLITE = [r_storage.rule_D, r_storage.rule_D6, r_storage.rule_Q1, r_storage.rule_Q2, r_storage.rule_Q3, r_storage.rule_Q4, r_storage.rule_Q5, r_storage.rule_Q7]
 G_INMEM = [r_storage.rule_Q6]
 G_SRV = [r_servers.rule_P1, r_servers.rule_P2, r_servers.rule_P4, r_servers.rule_P5, r_servers.rule_A1_local, r_servers.rule_A1_drop, _K_core, r_servers.rule_K7,
-         r_servers.rule_GI, r_servers.rule_GC, r_servers.rule_GC3, r_servers.rule_GC4, r_servers.rule_GS1]
+         r_servers.rule_GI, r_servers.rule_GC, r_servers.rule_GC3, r_servers.rule_GC4, r_servers.rule_GS1, r_servers.rule_GC6, _ED]
 G_CRYPTO = [r_crypto.rule_X1, r_crypto.rule_X2, r_crypto.rule_X3, r_crypto.rule_X4, r_crypto.rule_X5, r_crypto.rule_X6, r_crypto.rule_X7, r_crypto.rule_X8]
 G_WS = [r_taskdb.rule_R1, r_taskdb.rule_R2, r_taskdb.rule_R3, r_taskdb.rule_R4, r_taskdb.rule_R5, r_taskdb.rule_R6, r_taskdb.rule_R7, r_taskdb.rule_R8]
 
 WIRING = {
-    "C01": (G_TRANSFORM + G_SYNC + G_WIRE + G_APPLY + G_SNAP + G_SQLITE + G_INMEM,
+    "C01": (G_TRANSFORM + G_SYNC + G_WIRE + G_APPLY + G_SNAP + G_SQLITE + G_INMEM + G_SRV,
             "the whole path from a local change to every replica: transform table (TR), the sync loop (S1-S11, N1, N2), the operation format (W1-W4), the local batch application (A1, L1, L2), snapshots and emptiness (N3-N5), and what the two storages must keep for the replica invariant (D, D6, Q1-Q6)"),
     "C02": (G_SYNC + G_TRANSFORM + G_SRV + G_SNAP,
             "racing syncs meet at the server's compare-and-set: the acceptance rules of every backend (P1, P2, P5, A1, K2/K4/K5, K7, GI, GC3) belong to this property as much as the client's retry loop (S7-S10)"),
-    "C03": (G_TRANSFORM + G_SYNC + G_APPLY + G_WIRE,
+    "C03": (G_TRANSFORM + G_SYNC + G_APPLY + G_WIRE + G_SNAP + G_SRV,
             "no lost update: the conflict table (WIN), the rebase loop, what is sent (W4) and the local application of the batch that recorded the update (A1)"),
     "C04": (G_SYNC + G_TRANSFORM + G_SNAP + G_SQLITE + G_INMEM + G_SRV + [r_taskdb.rule_R6],
             "an interrupted sync is repeatable: one transaction dropped on error (T1s, D2-D4, D6), emptiness judged with the pending operations (N3, N3o), own version cancelled (CANCEL), servers that survive a lost reply (K7, A1, GC4), working set rebuilt on the repeat (R6)"),
     "C05": (G_APPLY + G_SQLITE + G_INMEM, None),
     "C06": (G_SQLITE + [r_sync.rule_T1_sync], None),
-    "C07": (G_SQLITE + G_INMEM + [r_taskdb.rule_A1], "undo on SQLite: the withdrawal compares decoded operations (Q4), the synced flag survives schema upgrades (Q5), the transaction is real (D)"),
+    "C07": (G_SQLITE + G_INMEM + G_SYNC + [r_taskdb.rule_A1, r_taskdb.rule_ERR], "undo on SQLite: the withdrawal compares decoded operations (Q4), the synced flag survives schema upgrades (Q5), the transaction is real (D)"),
     "C08": (G_SRV + G_CRYPTO, "every backend's acceptance and retrieval path including the sealing layer the three remote ones share (X2-X4, X7, X8)"),
     "C09": ([r_servers.rule_K7], None),
+    "C10": ([_K_all, r_servers.rule_K7], "cleanup is safe only against an add_version that uploads the version before it swaps the head (K5) and never leaves the head naming a missing object (K7)"),
     "C11": ([r_servers.rule_P5, r_servers.rule_P4], None),
     "C12": (G_SNAP + G_SYNC + G_INMEM + [r_storage.rule_Q1], None),
     "C13": ([r_servers.rule_GS1], "the key a handle seals with is the one derived from the salt the remote holds (X7 for the object store, GS1 for git)"),
@@ -215,6 +224,8 @@ def _apply_wiring():
             if n == "_K_all" and ("rule_K" in src_names):
                 continue
             if n == "_T1_commit" and ("rule_T1" in src_names):
+                continue
+            if n == "_ED" and ("rule_ED" in src_names):
                 continue
             spec["rules"].append(r)
             have.add(n)
